@@ -18,7 +18,8 @@ TRUSTED_BASE = [
 ASSUMPTIONS = ["values are opaque leaves at this level; nesting is covered by the nested stream "
                "(oracle only) and by C02's heap model"]
 
-FLAVOURS = ["function", "class", "callable_instance", "classmethod", "dataclass", "partial"]
+FLAVOURS = ["function", "class", "callable_instance", "classmethod", "dataclass", "partial",
+            "unhashable_instance", "slots_instance"]
 NT = collections.namedtuple("NT", "p q")
 
 
@@ -183,8 +184,12 @@ def one_case(rng, res, intern, stream, params0, flavour, fresh, label, n_edits):
   if observed[0] == "exc" and observed[1] != "TypeError":
     res.count("non-TypeError:" + observed[1])
   else:
-    stream.add("(mkcase " + l1.g_sig(params, intern) + " " + l1.g_store(items, intern) + " "
-               + g_view(view, params, intern) + ")", meta=replay)
+    try:
+      stream.add("(mkcase " + l1.g_sig(params, intern) + " " + l1.g_store(items, intern) + " "
+                 + g_view(view, params, intern) + ")", meta=replay)
+    except KeyError as e:
+      # the callee's recorded view lacks a parameter of the signature the harness generated
+      res.failures.append(Failure(None, f"C01 {label}: the callee's view {view!r} lacks parameter {e}", replay))
   if len(res.samples) < 4:
     res.samples.append({k: replay[k] for k in ("signature", "flavour", "ctor_args", "ctor_kwargs",
                                                "ops", "observed")})
